@@ -160,7 +160,31 @@ class SxOpaqueBytes:
         return SxText(z3.Function("decode_%s" % encoding.lower().replace("-", "_"), OBytes, Text)(self.e))
 
 
+def _ascii_only(x):
+    from .values import SxStr, SxChar
+    its = x.items if isinstance(x, SxStr) else [x]
+    for i in its:
+        if isinstance(i, str):
+            if ord(i) >= 128:
+                return False
+        elif isinstance(i, SxChar):
+            poss = i.possible()
+            if poss is not None:
+                if any(ord(c) >= 128 for c in poss):
+                    return False
+            elif not (i.idx.hi is not None and i.idx.hi < 128):
+                return False
+        else:
+            return False
+    return True
+
+
 def _normalize(form, x):
+    from .values import SxStr, SxChar
+    if isinstance(x, (SxStr, SxChar)):
+        if _ascii_only(x):
+            return x                   # every normalisation form is the identity on ASCII
+        raise Unsupported("unicodedata.normalize on symbolic non-ASCII characters")
     if not isinstance(x, SxText):
         if isinstance(form, str) and isinstance(x, str):
             return unicodedata.normalize(form, x)
@@ -174,6 +198,11 @@ def _normalize(form, x):
 
 
 def _is_normalized(form, x):
+    from .values import SxStr, SxChar
+    if isinstance(x, (SxStr, SxChar)):
+        if _ascii_only(x):
+            return True
+        raise Unsupported("unicodedata.is_normalized on symbolic non-ASCII characters")
     if not isinstance(x, SxText):
         return unicodedata.is_normalized(form, x)
     f = z3.Function("normalize_%s" % form, Text, Text)
